@@ -51,6 +51,7 @@ type ssJob struct {
 	Schedules []ssSchedule `json:"schedules"`
 	Known     []string     `json:"known"` // listed known-finding slugs
 	Staged    bool         `json:"staged"`
+	MsgLen    int          `json:"msglen"` // bytes per message (default 3 = one 4-byte buffer; 9 = a chain of three buffers)
 	Random    struct {
 		N       int   `json:"n"`
 		Seed    int64 `json:"seed"`
@@ -279,7 +280,7 @@ func (w *ssWorld) project() *ssExp {
 			if o := st.obj[side]; o != nil && streamState(o.getStreamState()) != streamClosed {
 				unread = o.recvBuf.len + ssPendingBytes(o)
 			}
-			x.Pend[name] = append(x.Pend[name], unread/3)
+			x.Pend[name] = append(x.Pend[name], (unread+ssMsgLen-1)/ssMsgLen)
 		}
 		q := s.queueManager.sendQueue
 		x.Queue[name] = [][]int{}
@@ -315,7 +316,7 @@ func (w *ssWorld) project() *ssExp {
 		}
 		c.mu.Unlock()
 	}
-	x.Inuse = w.pair.inUse(w.pair.A) - len(w.held)
+	x.Inuse = (w.pair.inUse(w.pair.A) - len(w.held) + ssSlicesPerMsg() - 1) / ssSlicesPerMsg()
 	x.Err = w.lastErr
 	return x
 }
@@ -435,7 +436,20 @@ func (w *ssWorld) pcOf(t *ssThr) string {
 	return t.th.pos
 }
 
-func ssPayload(streamIdx, side, m int) []byte { return []byte{byte(streamIdx), byte(0xA0 + side), byte(m)} }
+// ssMsgLen: bytes per message. 3 fits one 4-byte buffer; 9 makes every message a chain of three buffers.
+var ssMsgLen = 3
+
+func ssSlicesPerMsg() int { return (ssMsgLen + 3) / 4 }
+
+func ssFill(m, i int) byte { return byte(m*7 + i*13 + 1) }
+
+func ssPayload(streamIdx, side, m int) []byte {
+	b := []byte{byte(streamIdx), byte(0xA0 + side), byte(m)}
+	for i := 3; i < ssMsgLen; i++ {
+		b = append(b, ssFill(m, i))
+	}
+	return b
+}
 
 // do executes one spec action on the real pair. Returns false if the action was not applicable (structural drift).
 func (w *ssWorld) do(st ssStep) bool {
@@ -570,11 +584,17 @@ func (w *ssWorld) do(st ssStep) bool {
 			return false
 		}
 		b, err := o.BufferReader().ReadBytes(n)
-		if err != nil || len(b) != n || n%3 != 0 {
+		if err != nil || len(b) != n || n%ssMsgLen != 0 {
 			w.fail("C07", "read", fmt.Sprintf("ReadBytes(%d) on stream %d side %s: len %d err %v", n, st.S, st.Side, len(b), err))
 			return true
 		}
-		for i := 0; i+3 <= n; i += 3 {
+		for i := 0; i+ssMsgLen <= n; i += ssMsgLen {
+			for k := 3; k < ssMsgLen; k++ {
+				if b[i+k] != ssFill(int(b[i+2]), k) && int(b[i]) == st.S && int(b[i+1]) == 0xA0+(1-side) {
+					w.fail("C07", "content", fmt.Sprintf("reader of stream %d at end %s: byte %d of message %d is %#x, the writer put %#x", st.S, st.Side, k, b[i+2], b[i+k], ssFill(int(b[i+2]), k)))
+					return true
+				}
+			}
 			if int(b[i]) != st.S || int(b[i+1]) != 0xA0+(1-side) {
 				w.fail("C07", "isolation", fmt.Sprintf("reader of stream %d at end %s received bytes %v written to stream %d by end-code %x", st.S, st.Side, b[i:i+3], b[i], b[i+1]))
 				return true
@@ -749,8 +769,12 @@ func TestVS_Session(t *testing.T) {
 	if err != nil {
 		t.Skip("no job")
 	}
+	ssMsgLen = 3
 	if err := json.Unmarshal(b, &job); err != nil {
 		t.Fatal(err)
+	}
+	if job.MsgLen > 3 {
+		ssMsgLen = job.MsgLen
 	}
 	res := &ssResult{Violations: []ssViolation{}, Drift: []string{}, Samples: []string{}, KnownHits: map[string]int{}, KnownWit: map[string]string{}}
 	defer func() {
@@ -969,6 +993,11 @@ func ssStaged(t *testing.T, qcap int, res *ssResult) {
 		}, ErrStreamClosed},
 		{"flush-retry/write-deadline", nil, ErrTimeout},
 		{"flush-retry/queue-stays-full", func(p *vpPair, sA, sB *Stream) {}, ErrQueueFull},
+		// the consumer handles the one notification in flight, drains the full queue and goes idle while the Flush is
+		// between two attempts: the retried put succeeds and must be followed by a wake-up of its own (C05)
+		{"flush-retry/consumer-drains-and-idles", func(p *vpPair, sA, sB *Stream) {
+			p.deliver(p.B)
+		}, nil},
 	}
 	for _, sc := range scens {
 		pair, err := vpNewPair(vpConfig{Sizes: []uint32{4}, Percents: []uint32{100}, MemSize: 2048, QueueCap: uint32(qcap)})
@@ -1025,6 +1054,14 @@ func ssStaged(t *testing.T, qcap int, res *ssResult) {
 			// finish: everything delivered, both ends closed, then the ledger must be empty
 			sA.SetWriteDeadline(time.Time{})
 			pair.settle()
+			if sc.want == nil && ferr == nil {
+				// C05: every notification has been delivered and handled, the producer is done: the queue must be empty
+				q := pair.A.queueManager.sendQueue
+				if n := q.size(); n != 0 {
+					res.Violations = append(res.Violations, ssViolation{Property: "C05", Kind: "stranded", Detail: fmt.Sprintf("%s: the Flush that found the queue full succeeded on a retry after the consumer had drained the queue and gone idle; every notification has been handled and %d element(s) are left in the queue (working flag %d)", sc.name, n, *q.workingFlag), Schedule: "staged " + sc.name, QCap: qcap, NStreams: 1})
+					return
+				}
+			}
 			sA.Close()
 			sB.Close()
 			for _, ns := range pair.newStreamsB {
